@@ -76,11 +76,18 @@ void iv_fd_unregister(struct iv_fd *fd)
 void iv_fd_set_cloexec(int fd) { if (fd >= 0 && fd < KFD_MAX) k_fd[fd].cloexec = 1; }
 void iv_fd_set_nonblock(int fd) { if (fd >= 0 && fd < KFD_MAX) k_fd[fd].nonblock = 1; }
 
+static int g_wr_final;
 ssize_t STUB(write)(int fd, const void *buf, size_t n)
 {
+	if (g_wr_final) {
+		/* the previous write was not interrupted: whatever it returned (success, EAGAIN on a full pipe, ...) ends the post */
+		__CPROVER_assert(0, "[C09,C08] the wake-up write is repeated only after EINTR: a full pipe or counter (EAGAIN) means a wake-up is already pending, and posting must never block or spin");
+		__CPROVER_assume(0);
+	}
 	g_writes++; g_wr_fd = fd; g_wr_n = n;
 	g_wr_val_ok = (n == 8) ? (*(const uint64_t *)buf == 1) : (n == 1);
 	if (g_wr_eintr > 0) { g_wr_eintr--; verif_errno = EINTR; return -1; }
+	g_wr_final = 1;
 	if (verif_in.wr_ret < 0) { verif_errno = verif_in.wr_errno; return -1; }
 	return verif_in.wr_ret;
 }
@@ -114,7 +121,7 @@ static void v_build(void)
 	v_er.cookie = &v_er;
 	v_er.handler = v_handler;
 	__CPROVER_assume(verif_in.wr_eintr <= 2 && verif_in.rd_eintr <= 2 && verif_in.wr_errno != EINTR && verif_in.rd_errno != EINTR);
-	g_wr_eintr = verif_in.wr_eintr; g_rd_eintr = verif_in.rd_eintr;
+	g_wr_eintr = verif_in.wr_eintr; g_rd_eintr = verif_in.rd_eintr; g_wr_final = 0;
 }
 
 /* ---- eventfd_grab: eventfd2 -> eventfd -> none ------------------------------ */
